@@ -200,6 +200,17 @@ Definition add_commit_data (st : stack) (id : N) (parent_ids : list N) : option 
       end
     end
   end.
+(** mutable.rs:166-198 merge_in / add_commits_from: the other index's commits are re-added
+    in its own order through add_commit_data (known ids are skipped, parents are looked up by
+    id); skipping the segments both stacks share is only a shortcut. [other] is the other
+    index's flat entry list. *)
+Definition ids_of_parents (fl : list sentry) (ps : list nat) : list N :=
+  map (fun p => fst (nth p fl (0%N, []))) ps.
+Definition merge_in (st : stack) (other : list sentry) : option stack :=
+  fold_left (fun acc e => match acc with
+                          | Some s => add_commit_data s (fst e) (ids_of_parents other (snd e))
+                          | None => None
+                          end) other (Some st).
 (** the flat index the queries see: all entries, oldest first *)
 Definition flat (st : stack) : list sentry := concat (rev st).
 Definition flat_graph (st : stack) : graph := map snd (flat st).
@@ -260,8 +271,13 @@ Record seg_file := mk_file {
                                   generation from the index API, parents from the commits *)
   f_bytes : list N;            (* impl: the bytes of index/segments/<name> *)
 }.
+(** two concurrent operations merged: flat entries (node number, parent positions) of the
+    index of the operation that finished first, of the other one, and the node numbers of the
+    merged index by position *)
+Definition merge_obs := (list sentry * list sentry * list N)%type.
 Record case := mk_case {
   c_snaps : list snap;         (* the same repo observed at several points *)
+  c_merges : list merge_obs;   (* impl: index order after merging concurrent operations *)
   c_levels : list level_obs;   (* impl: IndexStats::commit_levels around plain transactions *)
   c_files : list seg_file;     (* impl: the segment files of the final index *)
   c_panicked : bool;
@@ -327,10 +343,25 @@ Definition file_ok (f : seg_file) : bool :=
   | None => false
   end.
 
+Definition merge_corr (o : merge_obs) : bool :=
+  let '(own, other, merged) := o in
+  match merge_in [own] other with
+  | Some st => list_eqb N.eqb (map fst (flat st)) merged
+  | None => false
+  end.
+(** nothing of either side is lost, the own index keeps its positions, the result is a
+    well-formed index *)
+Definition merge_ok (o : merge_obs) : bool :=
+  let '(own, other, merged) := o in
+  list_eqb N.eqb (firstn (length own) merged) (map fst own) &&
+  forallb (fun e => existsb (N.eqb (fst e)) merged) other &&
+  forallb (fun x => existsb (fun e => (fst e =? x)%N) (own ++ other)) merged &&
+  (fix nodup (l : list N) := match l with [] => true | x :: r => negb (existsb (N.eqb x) r) && nodup r end) merged.
+
 Definition okb (c : case) : bool :=
   negb (c_panicked c) && forallb snap_ok (c_snaps c) && forallb level_ok (c_levels c) &&
-  forallb file_ok (c_files c).
+  forallb file_ok (c_files c) && forallb merge_ok (c_merges c).
 Definition check_case (c : case) : N :=
   verdict (forallb snap_corr (c_snaps c) && forallb level_corr (c_levels c) &&
-           forallb file_corr (c_files c) && negb (c_panicked c))
+           forallb file_corr (c_files c) && forallb merge_corr (c_merges c) && negb (c_panicked c))
           (okb c) false 1.
